@@ -154,13 +154,34 @@ type rCol struct {
 	u64       []uint64 // UInt64 cells
 	strs      []string // String cells
 	isStr     bool
+	raw       []byte // pre-encoded cells of any fixed-width type (useRaw)
+	n         int
+	useRaw    bool
 }
 
 func (c rCol) rows() int {
+	if c.useRaw {
+		return c.n
+	}
 	if c.isStr {
 		return len(c.strs)
 	}
 	return len(c.u64)
+}
+
+func (r *rb) cells(c rCol) {
+	switch {
+	case c.useRaw:
+		r.b = append(r.b, c.raw...)
+	case c.isStr:
+		for _, s := range c.strs {
+			r.str(s)
+		}
+	default:
+		for _, x := range c.u64 {
+			r.u64(x)
+		}
+	}
 }
 
 // block writes a block body (info, counts, columns) at revision v.
@@ -188,15 +209,7 @@ func (r *rb) block(cols []rCol, v int) {
 		if v >= rCustomSerial {
 			r.u8(0)
 		}
-		if c.isStr {
-			for _, s := range c.strs {
-				r.str(s)
-			}
-		} else {
-			for _, x := range c.u64 {
-				r.u64(x)
-			}
-		}
+		r.cells(c)
 	}
 }
 
@@ -271,15 +284,7 @@ func (r *rb) block0(cols []rCol, v int) {
 		if v >= rCustomSerial {
 			r.u8(0)
 		}
-		if c.isStr {
-			for _, s := range c.strs {
-				r.str(s)
-			}
-		} else {
-			for _, x := range c.u64 {
-				r.u64(x)
-			}
-		}
+		r.cells(c)
 	}
 }
 
